@@ -26,6 +26,16 @@ theorem le_antisymm (x y : Num) (h1 : le x y = true) (h2 : le y x = true) : x = 
   cases x <;> cases y <;> simp_all [le]
   exact Rat.le_antisymm h1 h2
 
+/-- on numbers (no NaN), "not strictly less" means "greater or equal" -/
+theorem ge_of_not_lt (x y : Num) (hx : x.isNaN = false) (hy : y.isNaN = false) (h : lt x y = false) : le y x = true := by
+  have ht := le_total_of_not_nan x y hx hy
+  simp only [Bool.or_eq_true] at ht
+  rcases ht with ht | ht
+  · cases hyx : le y x with
+    | true => rfl
+    | false => simp [lt, ht, hyx] at h
+  · exact ht
+
 theorem neg_neg (x : Num) : neg (neg x) = x := by
   cases x <;> simp [neg, Rat.neg_neg]
 
